@@ -13,6 +13,7 @@ mod refsession;
 mod runner;
 mod selftest;
 mod session;
+mod shrink;
 mod tamper;
 mod faults;
 
